@@ -30,12 +30,13 @@ sec8 = """----------------------------------------------------------------------
 ## 8. Seeded changes, and which checks catch them
 
 @N@ changes were produced by fresh sub-agents that were given only the text of one
-property and a scratch worktree of /repo (nothing from /verif), in three rounds of
+property and a scratch worktree of /repo (nothing from /verif), in four rounds of
 two changes per property (round 2 was told the summaries of round 1 and asked for
 harder, different mechanisms; round 3 was told all four earlier summaries and asked
 to look away from the obvious function: shared helpers, type definitions, derive
 attributes, constants, iterator chains, match-arm order, build.rs, Cargo.toml, the
-data file). Each was confirmed by `tools/confirm_mutant.py` in a scratch worktree:
+data file; round 4 (-g, -h) was asked for slips disguised as honest refactorings, two
+cooperating sites, one build configuration, less-used entry points). Each was confirmed by `tools/confirm_mutant.py` in a scratch worktree:
 the three configurations compile and the existing tests pass (default and
 serialize) with the change; its demonstration test fails with the change and passes
 without it. None is applied to /repo. To run the checks against one:
@@ -64,6 +65,16 @@ rule loosened:
 * C09-e / C09-f (parser-side changes that only break the round trip): READER-GRAMMAR.
 * C03-b was missed for a moment after the projections were introduced (the Failure was
   inside a cut region): NO-FAILURE over the whole payload grammar.
+* C06-g (the `map_parser(take(len), ..)` wrapper removed from the stand-alone extension
+  parsers, one of whose helpers does not bound itself): the 16 tag parsers joined the
+  locality table. C06-h (every record copied into the internal buffer first): new rule
+  DEFRAG-NOCOPY on the defragmenter's path summaries.
+* C01-h made the old path engine crash (exit 2): analysis errors after extraction are now
+  violations, and the defragmenter is read by the semantic interpreter.
+* C11-f and C11-h were caught only by a brittle shape rule; when C11 was made to follow
+  every branch they were missed until the `/no-overlap` rule (same bytes read by a
+  structure-deciding element of an earlier alternative / a re-read) was added, which
+  reports them for the reason they are wrong.
 
 The column "caught by" lists every property check that reports the change (from
 `seeded/MATRIX.json`, all 18 checks run against every change); "rules" are the rules
@@ -72,7 +83,34 @@ of the change's own property that fire.
 | change | what was changed | needs to manifest | rules (own property) | caught by |
 |---|---|---|---|---|
 """ + "\n".join(rows) + "\n\n"
-sec8 = sec8.replace("@N@", str(len(rows)))
+rrows = []
+for d in sorted(glob.glob(os.path.join(V, "refactors", "C*-*"))):
+    name = os.path.basename(d)
+    m = json.load(open(os.path.join(d, "meta.json")))
+    summ = m.get("summary", "").replace("\n", " ").replace("|", "/")
+    if len(summ) > 260:
+        summ = summ[:257] + "..."
+    chk = m.get("checks", {})
+    alarms = sorted(p for p, v in chk.items() if v.get("rc") != 0)
+    first = m.get("first_alarms")
+    rrows.append("| %s | %s | %s | %s |" % (name, summ, ", ".join(first) if first else ("none" if first == [] else "?"), ", ".join(alarms) or "none"))
+sec8 += """### 8.2 Behaviour-preserving refactorings, and which checks stay silent
+
+The other direction: @R@ refactorings were produced by fresh sub-agents that were given
+only the text of one property and a scratch worktree, and asked to restructure the code
+the property is anchored in *without changing any observable behaviour* (with an
+equivalence argument and a demonstration test that passes on both trees). Each was
+confirmed by `tools/try_refactor.py`: three configurations compile, the existing tests
+pass, the demonstration passes with and without the patch; then all 18 checks were run
+against the patched worktree. "alarms when first tried" is what the checks said before
+the machinery was strengthened (each of those was a false alarm of the checker, fixed by
+a canonical form or a more semantic rule - section 3 - never by a suppression);
+"alarms now" is `tools/rf_all.sh` on the current machinery.
+
+| refactoring | what was restructured | alarms when first tried | alarms now |
+|---|---|---|---|
+""" + "\n".join(rrows) + "\n\n"
+sec8 = sec8.replace("@N@", str(len(rows))).replace("@R@", str(len(rrows)))
 sec9 = """--------------------------------------------------------------------------
 
 ## 9. Interface (MANIFEST.json)
